@@ -424,17 +424,63 @@ Proof.
   vm_compute. tauto.
 Qed.
 
-(* delete, ingest again (same process), delete: the second delete answers 404 and removes nothing *)
-Theorem delete_recreated_refuted :
+(* PRE-FIX documentation: delete, ingest again (same process), delete: the second delete answered 404
+   and removed nothing *)
+Theorem prefix_delete_recreated_refuted :
   exists ops X t e,
     plain t = true /\ e_org e = X /\ e_tab e = t /\
-    In e (evs (run (ops ++ [Delete X t]))) /\
-    snd (step (run ops) (Delete X t)) = OCode 404.
+    In e (evs (run_prefix (ops ++ [Delete X t]))) /\
+    snd (step_prefix (run_prefix ops) (Delete X t)) = OCode 404.
 Proof.
   exists [Ingest 0 w_a [1]; Delete 0 w_a; Ingest 0 w_a [2]], 0, w_a, (mkEv 0 w_a false 2 0).
   split; [vm_compute; reflexivity|]. split; [reflexivity|]. split; [reflexivity|].
   split; vm_compute; tauto.
 Qed.
+
+(* PRE-FIX documentation: the column listing still showed the deleted index (unrotated data at delete time) *)
+Theorem prefix_delete_left_columns_refuted :
+  exists ops X t,
+    plain t = true /\
+    (forall e, In e (evs (run_prefix ops)) -> e_tab e <> t) /\
+    In (X, t) (q_pairs (run_prefix ops) X t).
+Proof.
+  exists [Ingest 0 w_a [1]; Delete 0 w_a], 0, w_a.
+  split; [reflexivity|]. split; vm_compute; tauto.
+Qed.
+
+Definition w_al : name := [97;108].   (* al *)
+Definition w_ab : name := [97;98].    (* ab *)
+
+(* PRE-FIX documentation: org 0's alias did not survive a graceful restart *)
+Theorem prefix_alias_lost_after_restart_refuted :
+  exists ops X a t,
+    In t (alias_targets (run_prefix ops) X a) /\ alias_targets (run_prefix (ops ++ [Restart])) X a = [].
+Proof.
+  exists [Ingest 0 w_a [1]; AddAlias 0 w_a w_al], 0, w_al, w_a. split; vm_compute; auto.
+Qed.
+
+(* PRE-FIX documentation: org 1 (alias directory present), alias ab -> a: after the restart the INDEX name a
+   resolved to ab *)
+Theorem prefix_alias_reversed_after_restart_refuted :
+  exists ops X a t,
+    alias_targets (run_prefix ops) X t = [] /\ In a (alias_targets (run_prefix (ops ++ [Restart])) X t).
+Proof.
+  exists [MkAliasDir 1; Ingest 1 w_a [1]; Ingest 1 w_ab [2]; AddAlias 1 w_a w_ab], 1, w_ab, w_a.
+  split; vm_compute; auto.
+Qed.
+
+(* the same histories under the fixed code *)
+Example fixed_recreated_delete_works :
+  let ops := [Ingest 0 w_a [1]; Delete 0 w_a; Ingest 0 w_a [2]] in
+  snd (step (run ops) (Delete 0 w_a)) = OCode 200 /\ evs (run (ops ++ [Delete 0 w_a])) = [].
+Proof. vm_compute. auto. Qed.
+Example fixed_alias_survives_restart :
+  let ops := [Ingest 0 w_a [1]; AddAlias 0 w_a w_al; Restart] in alias_targets (run ops) 0 w_al = [w_a].
+Proof. vm_compute. auto. Qed.
+Example fixed_alias_not_reversed :
+  let ops := [MkAliasDir 1; Ingest 1 w_a [1]; Ingest 1 w_ab [2]; AddAlias 1 w_a w_ab; Restart] in
+  alias_targets (run ops) 1 w_ab = [w_a] /\ alias_targets (run ops) 1 w_a = [].
+Proof. vm_compute. auto. Qed.
 
 (* ---------- the expansion is glob matching when no regex metacharacter meets a wildcard ---------- *)
 Definition is_meta (c : N) : bool :=
@@ -807,10 +853,8 @@ Proof.
     rewrite (file_keys_sim X s1 s2 n H). apply rem_fold_cong. exact H. }
   split; auto. destruct P. constructor; cbn; auto.
   - rewrite !(filter_comm (orgp X)). congruence.
+  - rewrite !(filter_comm (orgp X)). congruence.
   - rewrite !del_evs_eq. rewrite !(filter_comm (orge X)). congruence.
-  - rewrite !filter_app. rewrite sim_gh0. f_equal.
-    rewrite !(filter_map_comm (fun e => (e_org e, e_tab e)) (orgp X) (orge X)) by (intros; reflexivity).
-    rewrite !(filter_comm (orge X)). congruence.
 Qed.
 
 Lemma del_fold_cong X names : forall s1 s2 nf, sim X s1 s2 ->
@@ -833,10 +877,25 @@ Proof.
   cbn [fst snd] in *. subst c2. split; auto.
 Qed.
 
-(* restart *)
-Lemma flush_one_other X s fl k : @orgp name X k = false -> filter (orgt X) (flush_one s fl k) = filter (orgt X) fl.
+Lemma aliases_of_index_sim X s1 s2 idx : sim X s1 s2 -> aliases_of_index s1 X idx = aliases_of_index s2 X idx.
 Proof.
-  intros F. unfold flush_one. destruct (dir_ok s (fst k)); auto.
+  intros H. unfold aliases_of_index.
+  rewrite (filter_and_t X (fun t => name_eqb (snd t) idx) (amem s1)).
+  rewrite (filter_and_t X (fun t => name_eqb (snd t) idx) (amem s2)).
+  rewrite (sim_am _ _ _ H). reflexivity.
+Qed.
+
+Lemma mem_indexes_sim X s1 s2 : sim X s1 s2 -> filter (orgp X) (mem_indexes s1) = filter (orgp X) (mem_indexes s2).
+Proof.
+  intros H. unfold mem_indexes.
+  rewrite !(filter_map_comm (fun t : N * name * name => (fst (fst t), snd t)) (orgp X) (orgt X)) by (intros; reflexivity).
+  rewrite (sim_am _ _ _ H). reflexivity.
+Qed.
+
+(* restart *)
+Lemma flush_index_other X s fl k : @orgp name X k = false -> filter (orgt X) (flush_index s fl k) = filter (orgt X) fl.
+Proof.
+  intros F. unfold flush_index. destruct (dir_ok s (fst k)); auto.
   rewrite filter_app. rewrite (filter_none (orgt X) (map _ _)).
   - rewrite app_nil_r. rewrite filter_comm. apply filter_all. intros t Ht. apply filter_In in Ht. destruct Ht as [_ Ht].
     unfold orgt in Ht. unfold orgp in F. apply N.eqb_eq in Ht. rewrite Ht.
@@ -844,33 +903,33 @@ Proof.
   - intros t Ht. apply in_map_iff in Ht. destruct Ht as (i & E & _). subst t. exact F.
 Qed.
 
-Lemma flush_one_own X s1 s2 fl k : sim X s1 s2 -> @orgp name X k = true ->
-  filter (orgt X) (flush_one s1 fl k) = flush_one s2 (filter (orgt X) fl) k.
+Lemma flush_index_own X s1 s2 fl k : sim X s1 s2 -> @orgp name X k = true ->
+  filter (orgt X) (flush_index s1 fl k) = flush_index s2 (filter (orgt X) fl) k.
 Proof.
-  intros H F. unfold orgp in F. apply N.eqb_eq in F. unfold flush_one. rewrite F.
+  intros H F. unfold orgp in F. apply N.eqb_eq in F. unfold flush_index. rewrite F.
   rewrite (dir_ok_sim X s1 s2 H). destruct (dir_ok s2 X); auto.
-  rewrite filter_app. rewrite filter_comm. rewrite (alias_targets_sim X s1 s2 _ H). f_equal.
+  rewrite filter_app. rewrite filter_comm. rewrite (aliases_of_index_sim X s1 s2 _ H). f_equal.
   apply filter_all. intros t Ht. apply in_map_iff in Ht. destruct Ht as (i & E & _). subst t.
   unfold orgt. cbn. apply N.eqb_refl.
 Qed.
 
 Lemma flush_fold_proj X s1 s2 keys : sim X s1 s2 -> forall fl,
-  filter (orgt X) (fold_left (flush_one s1) keys fl) =
-  fold_left (flush_one s2) (filter (orgp X) keys) (filter (orgt X) fl).
+  filter (orgt X) (fold_left (flush_index s1) keys fl) =
+  fold_left (flush_index s2) (filter (orgp X) keys) (filter (orgt X) fl).
 Proof.
   intros H. induction keys as [|k r IH]; intros fl; cbn [fold_left filter]; auto.
   rewrite IH. destruct (orgp X k) eqn:F.
-  - cbn [fold_left]. rewrite (flush_one_own X s1 s2 fl k H F). reflexivity.
-  - rewrite (flush_one_other X s1 fl k F). reflexivity.
+  - cbn [fold_left]. rewrite (flush_index_own X s1 s2 fl k H F). reflexivity.
+  - rewrite (flush_index_other X s1 fl k F). reflexivity.
 Qed.
 
 Lemma restart_cong X s1 s2 : sim X s1 s2 -> sim X (do_restart s1) (do_restart s2).
 Proof.
   intros H.
-  assert (FL : filter (orgt X) (fold_left (flush_one s1) (akeys s1) (afile s1)) =
-               filter (orgt X) (fold_left (flush_one s2) (akeys s2) (afile s2))).
-  { rewrite (flush_fold_proj X s1 s2 (akeys s1) H), (flush_fold_proj X s2 s2 (akeys s2) (sim_refl X s2)).
-    rewrite (sim_ak _ _ _ H), (sim_af _ _ _ H). reflexivity. }
+  assert (FL : filter (orgt X) (fold_left (flush_index s1) (mem_indexes s1) (afile s1)) =
+               filter (orgt X) (fold_left (flush_index s2) (mem_indexes s2) (afile s2))).
+  { rewrite (flush_fold_proj X s1 s2 (mem_indexes s1) H), (flush_fold_proj X s2 s2 (mem_indexes s2) (sim_refl X s2)).
+    rewrite (mem_indexes_sim X s1 s2 H), (sim_af _ _ _ H). reflexivity. }
   unfold do_restart. constructor; cbn.
   - apply (sim_ft _ _ _ H).
   - rewrite !(filter_comm (orgp X)). rewrite (sim_ft _ _ _ H). reflexivity.
@@ -1218,4 +1277,335 @@ Proof.
   split; [vm_compute; tauto|]. split; [|reflexivity].
   intros (n & ids & Hin & Hi). cbn in Hin. destruct Hin as [E|[E|[E|[]]]]; inversion E; subst.
   cbn in Hi. destruct Hi as [Hi|[]]. discriminate.
+Qed.
+
+(* ====================================================================== *)
+(* Full-strength statements that hold since the repairs of delete-index and of the alias persistence *)
+
+(* ---- no stale unrotated-segment info: the column listing only shows stored events ---- *)
+Lemma rem_alias_ghost s X i a : ghost (rem_alias s X i a) = ghost s.
+Proof. unfold rem_alias. destruct (is_empty i); reflexivity. Qed.
+Lemma rem_fold_ghost X n l : forall s, ghost (fold_left (fun st a => rem_alias st X n a) l s) = ghost s.
+Proof. induction l as [|a l IH]; intros s; cbn; auto. rewrite IH. apply rem_alias_ghost. Qed.
+Lemma pre_del_ghost s X n : ghost (pre_del s X n) = ghost s.
+Proof. unfold pre_del. destruct (alias_targets s X n); auto. apply rem_fold_ghost. Qed.
+
+Lemma del_one_ghost X s nf n : ghost (fst (del_one X (s, nf) n)) = ghost s.
+Proof.
+  unfold del_one. destruct (has_tab (ftabs s) X n); cbn [fst ghost]; auto.
+  fold (pre_del s X n). apply pre_del_ghost.
+Qed.
+
+Lemma del_fold_ghost X names : forall acc, ghost (fst (fold_left (del_one X) names acc)) = ghost (fst acc).
+Proof.
+  induction names as [|n r IH]; intros [s nf]; cbn [fold_left]; auto.
+  rewrite IH. apply del_one_ghost.
+Qed.
+
+Lemma ghost_step s o : ghost s = [] -> ghost (fst (step s o)) = [].
+Proof.
+  intros H. destruct o; cbn [step fst]; auto.
+  - unfold add_tab. destruct (has_tab (mtabs s) org idx); auto.
+  - destruct ids; auto. cbn [fst ghost]. unfold add_tab. destruct (has_tab _ _ _); auto.
+  - unfold add_alias. destruct (is_empty idx); auto. destruct (negb (dir_ok s org)); auto.
+    destruct (fold_left _ _ _). exact H.
+  - rewrite rem_alias_ghost. exact H.
+  - unfold do_delete. destruct (name_eqb expr n_traces); auto.
+    pose proof (del_fold_ghost org (expand s org true expr) (s, O)) as G.
+    destruct (fold_left (del_one org) (expand s org true expr) (s, O)) as [s' nf]. cbn [fst] in *. congruence.
+Qed.
+
+Theorem ghost_empty : forall ops, ghost (run ops) = [].
+Proof.
+  induction ops as [|o ops IH] using rev_ind; [reflexivity|]. rewrite run_snoc. apply ghost_step. exact IH.
+Qed.
+
+Theorem columns_only_of_stored_events : forall ops X expr p,
+  In p (q_pairs (run ops) X expr) ->
+  exists e, In e (evs (run ops)) /\ p = (e_org e, e_tab e) /\ e_org e = X /\
+            In (e_tab e) (expand (run ops) X false expr).
+Proof.
+  intros ops X expr p H. unfold q_pairs in H. rewrite ghost_empty in H. cbn [filter] in H. rewrite app_nil_r in H.
+  apply in_map_iff in H. destruct H as (e & E & He). apply filter_In in He. destruct He as [He Hs].
+  unfold sel_tab in Hs. apply andb_true_iff in Hs. destruct Hs as [Ho Ht].
+  exists e. repeat split; auto; [apply N.eqb_eq; exact Ho | apply mem_In; exact Ht].
+Qed.
+
+(* ---- every index that holds events is listed for its org, so delete-index by name always finds it ---- *)
+Definition listed_inv (s : state) : Prop :=
+  (forall X t, has_tab (mtabs s) X t = true -> has_tab (ftabs s) X t = true) /\
+  (forall e, In e (evs s) -> has_tab (ftabs s) (e_org e) (e_tab e) = true).
+
+Lemma has_tab_app l X t Y u : has_tab (l ++ [(Y, u)]) X t = has_tab l X t || ((Y =? X) && name_eqb u t).
+Proof. unfold has_tab. rewrite existsb_app. cbn. rewrite orb_false_r. reflexivity. Qed.
+
+Lemma has_tab_remove_gen l X n Y m :
+  has_tab (filter (fun p => negb (pair_is X n p)) l) Y m = has_tab l Y m && negb ((Y =? X) && name_eqb m n).
+Proof.
+  unfold has_tab. induction l as [|p l IH]; auto. cbn [filter existsb].
+  destruct (pair_is X n p) eqn:Pn; cbn [negb existsb]; rewrite IH.
+  - destruct (pair_is Y m p) eqn:Pm; cbn [orb]; auto.
+    unfold pair_is in *. apply andb_true_iff in Pn, Pm. destruct Pn as [A B], Pm as [C D].
+    apply N.eqb_eq in A, C. apply name_eqb_eq in B, D. subst. rewrite N.eqb_refl, name_eqb_refl. cbn.
+    rewrite andb_false_r. reflexivity.
+  - destruct (pair_is Y m p) eqn:Pm; cbn [orb]; auto.
+    destruct ((Y =? X) && name_eqb m n) eqn:E; cbn; auto.
+    apply andb_true_iff in E. destruct E as [A B]. apply N.eqb_eq in A. apply name_eqb_eq in B. subst.
+    rewrite Pm in Pn. discriminate.
+Qed.
+
+Lemma add_tab_listed s X t : listed_inv s -> listed_inv (add_tab s X t) /\ has_tab (ftabs (add_tab s X t)) X t = true.
+Proof.
+  intros [I1 I2]. unfold add_tab. destruct (has_tab (mtabs s) X t) eqn:M.
+  - split; [split; auto|]. apply I1. exact M.
+  - unfold listed_inv. cbn [ftabs mtabs evs]. split; [split|].
+    + intros Y u. rewrite !has_tab_app. intros H. apply orb_true_iff in H. destruct H as [H|H].
+      * rewrite (I1 _ _ H). reflexivity.
+      * rewrite H. apply orb_true_r.
+    + intros e He. rewrite has_tab_app. rewrite (I2 e He). reflexivity.
+    + rewrite has_tab_app, N.eqb_refl, name_eqb_refl. apply orb_true_r.
+Qed.
+
+Lemma add_tab_ftabs_mono s X t Y u : has_tab (ftabs s) Y u = true -> has_tab (ftabs (add_tab s X t)) Y u = true.
+Proof. unfold add_tab. destruct (has_tab (mtabs s) X t); auto. cbn [ftabs]. rewrite has_tab_app. intros H. rewrite H. reflexivity. Qed.
+
+Lemma rem_alias_mtabs s X i a : mtabs (rem_alias s X i a) = mtabs s.
+Proof. unfold rem_alias. destruct (is_empty i); reflexivity. Qed.
+Lemma rem_fold_mtabs X n l : forall s, mtabs (fold_left (fun st a => rem_alias st X n a) l s) = mtabs s.
+Proof. induction l as [|a l IH]; intros s; cbn; auto. rewrite IH. apply rem_alias_mtabs. Qed.
+Lemma pre_del_mtabs s X n : mtabs (pre_del s X n) = mtabs s.
+Proof. unfold pre_del. destruct (alias_targets s X n); auto. apply rem_fold_mtabs. Qed.
+
+Lemma del_one_listed X s nf n : listed_inv s -> listed_inv (fst (del_one X (s, nf) n)).
+Proof.
+  intros [I1 I2]. unfold del_one. destruct (has_tab (ftabs s) X n); [|split; auto].
+  fold (pre_del s X n). unfold listed_inv. cbn [fst ftabs mtabs evs]. rewrite pre_del_ftabs, pre_del_mtabs, del_evs_eq, pre_del_evs. split.
+  - intros Y u. rewrite !has_tab_remove_gen. intros H. apply andb_true_iff in H. destruct H as [H1 H2].
+    rewrite (I1 _ _ H1), H2. reflexivity.
+  - intros e He. apply filter_In in He. destruct He as [He Hn]. rewrite has_tab_remove_gen, (I2 e He).
+    apply negb_true_iff in Hn. rewrite Hn, andb_false_r. reflexivity.
+Qed.
+
+Lemma del_fold_listed X names : forall acc, listed_inv (fst acc) -> listed_inv (fst (fold_left (del_one X) names acc)).
+Proof.
+  induction names as [|n r IH]; intros [s nf] H; cbn [fold_left]; auto.
+  apply IH. destruct (del_one X (s, nf) n) as [s1 nf1] eqn:E.
+  pose proof (del_one_listed X s nf n H) as L. rewrite E in L. exact L.
+Qed.
+
+Lemma listed_step s o : listed_inv s -> listed_inv (fst (step s o)).
+Proof.
+  intros H. destruct o; cbn [step fst]; auto.
+  - apply add_tab_listed. exact H.
+  - destruct ids as [|i0 ids0]; auto. cbn [fst].
+    destruct (add_tab_listed s org (resolve s org idx) H) as [[I1 I2] I3]. split; cbn [ftabs mtabs evs]; auto.
+    intros e He. apply in_app_or in He. destruct He as [He|He]; auto.
+    apply in_map_iff in He. destruct He as (i & E & _). subst e. cbn. exact I3.
+  - destruct H as [I1 I2]. split; cbn [ftabs mtabs evs]; auto.
+    intros e He. apply in_map_iff in He. destruct He as (e0 & E & H0). subst e. cbn. auto.
+  - destruct H as [I1 I2]. unfold add_alias. destruct (is_empty idx); [split; auto|].
+    destruct (negb (dir_ok s org)); [split; auto|]. destruct (fold_left _ _ _). split; cbn [ftabs mtabs evs]; auto.
+  - destruct H as [I1 I2]. unfold rem_alias. destruct (is_empty idx); split; cbn [ftabs mtabs evs]; auto.
+  - unfold do_delete. destruct (name_eqb expr n_traces); auto.
+    pose proof (del_fold_listed org (expand s org true expr) (s, O) H) as L.
+    destruct (fold_left (del_one org) (expand s org true expr) (s, O)) as [s' nf]. cbn [fst] in *. exact L.
+  - destruct H as [I1 I2]. unfold do_restart. split; cbn [ftabs mtabs evs].
+    + intros X t Hm. unfold has_tab in *. apply existsb_exists in Hm. destruct Hm as (p & Hp & Hq).
+      apply filter_In in Hp. apply existsb_exists. exists p. tauto.
+    + intros e He. apply in_map_iff in He. destruct He as (e0 & E & H0). subst e. cbn. auto.
+Qed.
+
+Theorem stored_index_is_listed : forall ops e,
+  In e (evs (run ops)) -> has_tab (ftabs (run ops)) (e_org e) (e_tab e) = true.
+Proof.
+  intros ops. assert (L : listed_inv (run ops)).
+  { induction ops as [|o ops IH] using rev_ind; [split; [discriminate | intros e []]|].
+    rewrite run_snoc. apply listed_step. exact IH. }
+  apply L.
+Qed.
+
+(* delete-index of a plain, non-alias name removes every event of (X, t) — whatever happened before
+   (in particular after delete + re-create in the same process) *)
+Theorem delete_plain_removes_all : forall ops X t e,
+  plain t = true -> name_eqb t n_traces = false -> alias_present (run ops) X t = false ->
+  In e (evs (run (ops ++ [Delete X t]))) -> ~ (e_org e = X /\ e_tab e = t).
+Proof.
+  intros ops X t e P Ht A He [Eo Et].
+  assert (Hb : In e (evs (run ops))).
+  { pose proof He as He2. rewrite run_snoc in He2. cbn [step] in He2.
+    destruct (do_delete (run ops) X t) as [s' c] eqn:D. cbn [fst] in He2.
+    pose proof (do_delete_evs (run ops) X t Ht) as Ev. rewrite D in Ev. cbn [fst] in Ev.
+    rewrite Ev in He2. apply filter_In in He2. tauto. }
+  pose proof (stored_index_is_listed ops e Hb) as L. rewrite Eo, Et in L.
+  apply (delete_removes_named ops X t e Ht); auto.
+  unfold del_names. rewrite (expand_plain _ _ _ _ P A). cbn. rewrite L. left. symmetry. exact Et.
+Qed.
+
+(* ---- alias persistence: memory and files hold the same relation, and it survives a restart, for every org ---- *)
+Definition alias_sync (s : state) : Prop :=
+  forall X a t, In (X, a, t) (amem s) <->
+                (In (X, t, a) (afile s) /\ is_empty a = false /\ is_empty t = false).
+
+Lemma in_alias_targets s X a t : In t (alias_targets s X a) <-> In (X, a, t) (amem s).
+Proof.
+  unfold alias_targets. rewrite in_map_iff. split.
+  - intros ([[o k] i] & E & H). apply filter_In in H. destruct H as [H P]. cbn in *.
+    apply andb_true_iff in P. destruct P as [P1 P2]. apply N.eqb_eq in P1. apply name_eqb_eq in P2. subst. exact H.
+  - intros H. exists (X, a, t). split; auto. apply filter_In. split; auto. cbn. rewrite N.eqb_refl, name_eqb_refl. reflexivity.
+Qed.
+
+Lemma in_file_keys s X f a : In a (file_keys s X f) <-> In (X, f, a) (afile s).
+Proof.
+  unfold file_keys. rewrite in_map_iff. split.
+  - intros ([[o k] i] & E & H). apply filter_In in H. destruct H as [H P]. cbn in *.
+    apply andb_true_iff in P. destruct P as [P1 P2]. apply N.eqb_eq in P1. apply name_eqb_eq in P2. subst. exact H.
+  - intros H. exists (X, f, a). split; auto. apply filter_In. split; auto. cbn. rewrite N.eqb_refl, name_eqb_refl. reflexivity.
+Qed.
+
+Lemma in_aliases_of_index s X idx a : In a (aliases_of_index s X idx) <-> In (X, a, idx) (amem s).
+Proof.
+  unfold aliases_of_index. rewrite in_map_iff. split.
+  - intros ([[o k] i] & E & H). apply filter_In in H. destruct H as [H P]. cbn in *.
+    apply andb_true_iff in P. destruct P as [P1 P2]. apply N.eqb_eq in P1. apply name_eqb_eq in P2. subst. exact H.
+  - intros H. exists (X, a, idx). split; auto. apply filter_In. split; auto. cbn. rewrite N.eqb_refl, name_eqb_refl. reflexivity.
+Qed.
+
+Lemma in_put_am X idx cur Y a t :
+  In (Y, a, t) (put_am X idx cur) <->
+  Y = X /\ t = idx /\ In a cur /\ is_empty a = false /\ is_empty idx = false.
+Proof.
+  unfold put_am. rewrite in_flat_map. split.
+  - intros (k & Hk & H). destruct (is_empty k || is_empty idx) eqn:E; [contradiction|].
+    destruct H as [H|[]]. inversion H; subst. apply orb_false_iff in E. tauto.
+  - intros (A & B & C & D & E). subst. exists a. split; auto. rewrite D, E. left. reflexivity.
+Qed.
+
+Lemma add_alias_sync s X idx al : alias_sync s -> alias_sync (add_alias s X idx al).
+Proof.
+  intros S. unfold add_alias. destruct (is_empty idx) eqn:Ei; auto. destruct (negb (dir_ok s X)); auto.
+  rewrite put_fold. intros Y a t. cbn [amem afile]. split.
+  - intros H. apply in_app_or in H. destruct H as [H|H].
+    + apply S in H. destruct H as (H & D & E). repeat split; auto. apply in_or_app. left. exact H.
+    + apply in_put_am in H. destruct H as (A & B & C & D & E). subst.
+      apply in_app_or in C. destruct C as [C|[C|[]]].
+      * apply in_file_keys in C. repeat split; auto. apply in_or_app. left. exact C.
+      * subst. repeat split; auto. apply in_or_app. right. left. reflexivity.
+  - intros (H & D & E). apply in_app_or in H. destruct H as [H|[H|[]]].
+    + apply in_or_app. left. apply S. tauto.
+    + inversion H; subst. apply in_or_app. right. apply in_put_am. repeat split; auto.
+      apply in_or_app. right. left. reflexivity.
+Qed.
+
+Lemma rem_alias_sync s X idx al : alias_sync s -> alias_sync (rem_alias s X idx al).
+Proof.
+  intros S. unfold rem_alias. destruct (is_empty idx); auto.
+  intros Y a t. cbn [amem afile]. split.
+  - intros H. apply filter_In in H. destruct H as [H1 H3]. apply S in H1. destruct H1 as (H1 & D & E).
+    repeat split; auto. apply filter_In. split; auto.
+    destruct (trip_is X idx al (Y, t, a)) eqn:T; auto. apply trip_is_true in T. inversion T; subst.
+    rewrite (proj2 (trip_is_true X al idx (X, al, idx)) eq_refl) in H3. discriminate.
+  - intros (H & D & E). apply filter_In in H. destruct H as [H1 H3]. apply filter_In. split; [apply S; tauto|].
+    destruct (trip_is X al idx (Y, a, t)) eqn:T; auto. apply trip_is_true in T. inversion T; subst.
+    rewrite (proj2 (trip_is_true X idx al (X, idx, al)) eq_refl) in H3. discriminate.
+Qed.
+
+Lemma rem_fold_sync X n l : forall s, alias_sync s -> alias_sync (fold_left (fun st a => rem_alias st X n a) l s).
+Proof. induction l as [|a l IH]; intros s S; cbn; auto. apply IH. apply rem_alias_sync. exact S. Qed.
+
+Lemma del_one_sync X s nf n : alias_sync s -> alias_sync (fst (del_one X (s, nf) n)).
+Proof.
+  intros S. unfold del_one. destruct (has_tab (ftabs s) X n); auto.
+  fold (pre_del s X n). assert (P : alias_sync (pre_del s X n)).
+  { unfold pre_del. destruct (alias_targets s X n); auto. apply rem_fold_sync. exact S. }
+  exact P.
+Qed.
+
+Lemma del_fold_sync X names : forall acc, alias_sync (fst acc) -> alias_sync (fst (fold_left (del_one X) names acc)).
+Proof.
+  induction names as [|n r IH]; intros [s nf] H; cbn [fold_left]; auto.
+  apply IH. destruct (del_one X (s, nf) n) as [s1 nf1] eqn:E.
+  pose proof (del_one_sync X s nf n H) as L. rewrite E in L. exact L.
+Qed.
+
+(* the flush rewrites every index file with what the file already says *)
+Lemma flush_keeps_relation s : alias_sync s -> forall keys fl,
+  (forall X t a, is_empty a = false -> is_empty t = false -> (In (X, t, a) fl <-> In (X, t, a) (afile s))) ->
+  forall X t a, is_empty a = false -> is_empty t = false ->
+    (In (X, t, a) (fold_left (flush_index s) keys fl) <-> In (X, t, a) (afile s)).
+Proof.
+  intros S. induction keys as [|k r IH]; intros fl P; cbn [fold_left]; auto.
+  apply IH. intros X t a Ea Et. unfold flush_index. destruct (dir_ok s (fst k)); [|apply P; auto].
+  destruct ((X =? fst k) && name_eqb t (snd k)) eqn:K.
+  - apply andb_true_iff in K. destruct K as [K1 K2]. apply N.eqb_eq in K1. apply name_eqb_eq in K2. subst. split.
+    + intros H. apply in_app_or in H. destruct H as [H|H].
+      * apply filter_In in H. destruct H as [_ H]. cbn [fst snd] in H. rewrite N.eqb_refl, name_eqb_refl in H. discriminate.
+      * apply in_map_iff in H. destruct H as (a' & E & H). inversion E; subst.
+        apply in_aliases_of_index in H. apply S in H. tauto.
+    + intros H. apply in_or_app. right. apply in_map_iff. exists a. split; auto.
+      apply in_aliases_of_index. apply S. tauto.
+  - split.
+    + intros H. apply in_app_or in H. destruct H as [H|H].
+      * apply filter_In in H. destruct H as [H _]. apply P; auto.
+      * apply in_map_iff in H. destruct H as (a' & E & H). inversion E; subst.
+        rewrite N.eqb_refl, name_eqb_refl in K. discriminate.
+    + intros H. apply in_or_app. left. apply filter_In. split; [apply P; auto|].
+      cbn [fst snd]. rewrite K. reflexivity.
+Qed.
+
+Lemma in_restart_amem s X a t :
+  In (X, a, t) (amem (do_restart s)) <->
+  In (X, t, a) (afile (do_restart s)) /\ is_empty a = false /\ is_empty t = false.
+Proof.
+  unfold do_restart. cbn [amem afile]. rewrite in_map_iff. split.
+  - intros ([[o f] k] & E & H). apply filter_In in H. destruct H as [H L]. cbn in E. inversion E; subst.
+    unfold loadable in L. cbn in L. apply andb_true_iff in L. destruct L as [L1 L2].
+    apply negb_true_iff in L1, L2. tauto.
+  - intros (H & Ea & Et). exists (X, t, a). split; auto. apply filter_In. split; auto.
+    unfold loadable. cbn. rewrite Ea, Et. reflexivity.
+Qed.
+
+(* reader and writer agree on the file format, for every org *)
+Theorem restart_alias_sync : forall s, alias_sync (do_restart s).
+Proof. intros s X a t. apply in_restart_amem. Qed.
+
+Theorem aliases_survive_restart : forall s X a t, alias_sync s ->
+  (In t (alias_targets (do_restart s) X a) <-> In t (alias_targets s X a)).
+Proof.
+  intros s X a t S.
+  assert (F : forall Y u b, is_empty b = false -> is_empty u = false ->
+              (In (Y, u, b) (afile (do_restart s)) <-> In (Y, u, b) (afile s))).
+  { intros Y u b Eb Eu. unfold do_restart. cbn [afile].
+    apply (flush_keeps_relation s S (mem_indexes s) (afile s)); auto. intros; tauto. }
+  split; intros H.
+  - apply in_alias_targets in H. apply in_restart_amem in H. destruct H as (H & Ea & Et).
+    apply in_alias_targets. apply S. split; auto. apply F; auto.
+  - apply in_alias_targets in H. apply S in H. destruct H as (H & Ea & Et).
+    apply in_alias_targets. apply in_restart_amem. split; auto. apply F; auto.
+Qed.
+
+Lemma sync_step s o : alias_sync s -> alias_sync (fst (step s o)).
+Proof.
+  intros S. destruct o; cbn [step fst]; auto.
+  - unfold add_tab. destruct (has_tab (mtabs s) org idx); auto.
+  - destruct ids; auto. cbn [fst]. unfold add_tab. destruct (has_tab _ _ _); auto.
+  - apply add_alias_sync. exact S.
+  - apply rem_alias_sync. exact S.
+  - unfold do_delete. destruct (name_eqb expr n_traces); auto.
+    pose proof (del_fold_sync org (expand s org true expr) (s, O) S) as L.
+    destruct (fold_left (del_one org) (expand s org true expr) (s, O)) as [s' nf]. cbn [fst] in *. exact L.
+  - apply restart_alias_sync.
+Qed.
+
+Theorem alias_sync_run : forall ops, alias_sync (run ops).
+Proof.
+  induction ops as [|o ops IH] using rev_ind.
+  - intros X a t. cbn. split; [intros [] | intros [[] _]].
+  - rewrite run_snoc. apply sync_step. exact IH.
+Qed.
+
+(* for ALL op sequences of all orgs: what an alias resolves to is the same before and after a graceful restart *)
+Theorem aliases_survive_restart_run : forall ops X a t,
+  In t (alias_targets (run (ops ++ [Restart])) X a) <-> In t (alias_targets (run ops) X a).
+Proof.
+  intros ops X a t. rewrite run_snoc. cbn [step fst]. apply aliases_survive_restart. apply alias_sync_run.
 Qed.
